@@ -16,7 +16,8 @@
 (*    [k |-> "free"]        not settled by the property (own binary of a node that also has children)*)
 (* ILen, Abs, Src/Map, ValidStrict are the literal reading of the property text; the state machine   *)
 (* below is the composition history (add_image / append_image / size setter / join_images /         *)
-(* update_offsets); len(), validate() and export() are observations of a state.                     *)
+(* update_offsets, and load_from_config: a whole tree described by a merge configuration);          *)
+(* len(), validate() and export() are observations of a state.                                      *)
 EXTENDS Integers, Sequences, FiniteSets, TLC
 
 Align(n, a) == ((n + a - 1) \div a) * a
@@ -136,6 +137,74 @@ UpdateOffsets(n) ==                                                \* update_off
                   IF k \in Kids(forest, n) THEN [forest[k] EXCEPT !.off = @ - m]
                   ELSE IF k = n THEN [forest[k] EXCEPT !.off = @ + m] ELSE forest[k]]
   /\ act' = [a |-> "UpdateOffsets", n |-> n]
+
+
+\* ---------------------------------------------------------------- the merge configuration (BinaryImage.load_from_config, `nxpimage utils binary-image merge`)
+\* A second public constructor of the same tree.  What its schema (spsdk/data/jsonschemas/sch_binary.yaml) says, and nothing more:
+\*   size       "the overall size of merged image"                               -> explicit size of the merged image (0 / absent: derived)
+\*   pattern    "used to fill up gaps between defined regions"                   -> fill pattern of the merged image
+\*   alignment  "region alignment that will be used in case that offset is not specified" (it is also the alignment of the merged image)
+\*   regions    in LISTING order: binary_block [size, pattern, offset?], binary_file [path, offset?]
+\*   offset     "the offset of image to be merge on. The offset could be also negative - for example to 'erase' security bit from address.
+\*               In case that offset definition is omitted, the block will be placed after previous one with defined alignment."
+\* cfg == [size, al, pat, regions],   region == [kind, hasoff, off, size, pat, segs]
+\*   kind = "block": `size` bytes of `pat`;  kind = "file": segs = <<[at, d], ...>> is what the file holds, in address order and apart
+\*   (a plain binary file is one segment at 0; HEX / S-record files carry addresses: a byte at address a of the file lands at offset + a).
+\* place[k] = where the first byte of region k lands in the merged image.
+\*   offset given   : exactly at offset (+ the first address of the file) - whatever its value (0 included) and wherever the region is listed
+\*   offset omitted : "after the previous one", aligned up.  For regions listed in address order that is the end of everything listed so
+\*                    far.  For a listing out of address order the sentence can be read as the end of the region listed just before or as
+\*                    the end of all regions listed before: BOTH readings are allowed here (lemma ReadingsCoincide of BinImageCfg: they are
+\*                    the same place for in-order listings).  The first region has nothing in front of it: it starts at 0.
+\*                    A file that carries non-zero addresses and has no offset is not settled by the text: outside the domain.
+\* The tree: image 1 = the merged image; every region is a sub-image of it, in listing order; a file region is an image (fill pattern of
+\* the merge: it has none of its own) that holds one sub-image per segment of the file.
+NonePat == [kind |-> "none", b |-> <<>>]
+FirstAt(r) == IF r.kind = "file" THEN r.segs[1].at ELSE 0
+RLen(r) == IF r.kind = "file" THEN r.segs[Len(r.segs)].at + Len(r.segs[Len(r.segs)].d) - r.segs[1].at ELSE r.size
+PrevEnd(rs, pl, k) == IF k = 1 THEN 0 ELSE pl[k - 1] + RLen(rs[k - 1])
+AllEnd(rs, pl, k) == Max({pl[j] + RLen(rs[j]) : j \in 1..(k - 1)})
+AppendChoices(cfg, pl, k) == {Align(PrevEnd(cfg.regions, pl, k), cfg.al), Align(AllEnd(cfg.regions, pl, k), cfg.al)}
+SegsOK(r) == /\ Len(r.segs) >= 1
+             /\ \A i \in 1..Len(r.segs) : Len(r.segs[i].d) >= 1 /\ r.segs[i].at >= 0
+             /\ \A i \in 1..(Len(r.segs) - 1) : r.segs[i].at + Len(r.segs[i].d) < r.segs[i + 1].at
+CfgOK(cfg) == /\ cfg.size >= 0 /\ cfg.al >= 1
+              /\ \A k \in DOMAIN cfg.regions :
+                   LET r == cfg.regions[k] IN
+                   /\ r.kind \in {"block", "file"} /\ r.hasoff \in BOOLEAN
+                   /\ IF r.kind = "file" THEN SegsOK(r) ELSE r.size >= 0 /\ r.pat.kind # "none"
+                   /\ r.hasoff \/ FirstAt(r) = 0
+PlacesOK(cfg, pl) == /\ Len(pl) = Len(cfg.regions)
+                     /\ \A k \in DOMAIN pl :
+                          /\ pl[k] >= 0                                          \* nothing lands below the start of the merged image
+                          /\ IF cfg.regions[k].hasoff THEN pl[k] = cfg.regions[k].off + FirstAt(cfg.regions[k])
+                             ELSE pl[k] \in AppendChoices(cfg, pl, k)
+RECURSIVE CfgNodes(_, _, _, _)
+CfgNodes(cfg, pl, k, F) ==
+  IF k > Len(cfg.regions) THEN F
+  ELSE LET r == cfg.regions[k]
+           w == Len(F) + 1 IN
+       IF r.kind = "block"
+       THEN CfgNodes(cfg, pl, k + 1, Append(F, [NewNode(w, pl[k], r.size, 1, <<>>, r.pat) EXCEPT !.par = 1]))
+       ELSE CfgNodes(cfg, pl, k + 1,
+                     Append(F, [NewNode(w, pl[k], 0, 1, <<>>, cfg.pat) EXCEPT !.par = 1])
+                     \o Mat([i \in 1..Len(r.segs) |->
+                               [NewNode(w + i, r.segs[i].at - r.segs[1].at, Len(r.segs[i].d), 1, r.segs[i].d, NonePat) EXCEPT !.par = w]]))
+CfgForest(cfg, pl) == CfgNodes(cfg, pl, 1, <<NewNode(1, 0, cfg.size, cfg.al, <<>>, cfg.pat)>>)
+\* id of the image of region k (its segments follow it)
+RECURSIVE RegionNode(_, _)
+RegionNode(cfg, k) == IF k = 1 THEN 2
+                      ELSE RegionNode(cfg, k - 1) + 1 + (IF cfg.regions[k - 1].kind = "file" THEN Len(cfg.regions[k - 1].segs) ELSE 0)
+Config(cfg, pl) ==                                                 \* load_from_config: the whole tree at once, from nothing
+  /\ forest = <<>> /\ CfgOK(cfg) /\ PlacesOK(cfg, pl)
+  /\ forest' = CfgForest(cfg, pl)
+  /\ act' = [a |-> "Config", cfg |-> cfg, place |-> pl]
+\* every place sequence the text allows (one per reading and omitted offset)
+RECURSIVE Places(_, _, _)
+Places(cfg, pl, k) == IF k > Len(cfg.regions) THEN {pl}
+                      ELSE LET r == cfg.regions[k]
+                               cs == IF r.hasoff THEN {r.off + FirstAt(r)} ELSE AppendChoices(cfg, pl, k) IN
+                           UNION {Places(cfg, Append(pl, c), k + 1) : c \in {x \in cs : x >= 0}}
 
 DataOf(len) == [i \in 1..len |-> DataByte(Len(forest) + 1, i - 1)]
 DoNew == \E off \in Offs : \E size \in Sizes : \E al \in Aligns : \E bl \in BinLens : \E pat \in Pats : New(off, size, al, DataOf(bl), pat)
